@@ -4,11 +4,11 @@ CONSTANTS
   ConsumerSet = {"c1", "c2"}
   StreamSet = {"sa", "sb"}
   MaxParts = 2
-  MaxOps = 4
+  MaxOps = 5
   MaxDeletes = 1
   Coords = {"A"}
-  MaxRestores = 0
+  MaxRestores = 1
   GetDs = {}
-INVARIANTS Raw_SameEpochSame
+INVARIANTS Raw_Converged
 VIEW MCView
 CHECK_DEADLOCK FALSE
